@@ -113,6 +113,34 @@ class Result(dict):
     pass
 
 
+def machine_run(programs: list, cases: list, kernel_of: dict, prog_of_kernel: dict, d: Path, tag: str, chunk: int = 300):
+    """Run cases on KernelRun.tla in chunks of kernels (each case runs the evaluate program of one kernel), so that
+    the JSON constants stay small in the thorough tier.  Returns (all verdict lines, states, transitions, depth)."""
+    kernels_sorted = sorted({kernel_of[c["id"]] for c in cases})
+    lines, st, tr, depth = [], 0, 0, 0
+    for lo in range(0, len(kernels_sorted), chunk):
+        ks = kernels_sorted[lo:lo + chunk]
+        local = {ki: i + 1 for i, ki in enumerate(ks)}
+        progs = [programs[prog_of_kernel[ki] - 1] for ki in ks]
+        sub = []
+        for c in cases:
+            ki = kernel_of[c["id"]]
+            if ki not in local:
+                continue
+            cc = dict(c)
+            cc["script"] = [dict(op, prog=local[ki]) if op.get("op") == "run" else op for op in c["script"]]
+            sub.append(cc)
+        dump(progs, d / f"{tag}-progs.json")
+        dump(sub, d / f"{tag}-cases.json")
+        r = run_tlc("KernelRun", "KernelRun.cfg", env={"VF_PROGS": d / f"{tag}-progs.json", "VF_CASES": d / f"{tag}-cases.json"},
+                    timeout=7200)
+        lines += r.lines
+        st += r.distinct
+        tr += r.generated
+        depth = max(depth, r.depth)
+    return lines, st, tr, depth
+
+
 def cache_path(t: str, s: int) -> Path:
     return WORK / "cache" / (source_hash() + "-" + machinery_hash()) / t / f"pipeline-{s}.json"
 
@@ -166,12 +194,16 @@ def _run(t: str, s: int) -> Result:
             meta[cid] = {"kernel": ki, "text": k.text, "formats": k.formats, "cap": cap, "group": group,
                          "dims": dims, "stage": "machine"}
     d = workdir("pipe")
-    dump(programs, d / "progs.json")
-    dump(cases, d / "cases.json")
-    ra = run_tlc("KernelRun", "KernelRun.cfg", env={"VF_PROGS": d / "progs.json", "VF_CASES": d / "cases.json"},
-                 coverage=False)
-    if len(ra.lines) != len(cases):
-        raise MachineryError(f"machine stage: {len(ra.lines)} verdicts for {len(cases)} cases")
+    prog_of_kernel = {ki: k.progs["evaluate"] for ki, (k, cap, group) in enumerate(kernel_list)}
+    kernel_of = {cid: m["kernel"] for cid, m in meta.items()}
+    a_lines, a_states, a_trans, a_depth = machine_run(programs, cases, kernel_of, prog_of_kernel, d, "a")
+    if len(a_lines) != len(cases):
+        raise MachineryError(f"machine stage: {len(a_lines)} verdicts for {len(cases)} cases")
+
+    class _RA:
+        lines, distinct, generated, depth, coverage = a_lines, a_states, a_trans, a_depth, {}
+
+    ra = _RA
     lines = {l["case"]: l for l in ra.lines}
     states_gen = trans_gen = 0
 
@@ -213,10 +245,14 @@ def _run(t: str, s: int) -> Result:
         gen_cases.append(c)
         gen_expected += 2 ** ncells(dims)
     if gen_cases:
-        dump([{k_: v_ for k_, v_ in c.items() if not k_.startswith("_")} for c in gen_cases], d / "gen.json")
-        rg = run_tlc("KernelRun", "KernelRun.cfg", env={"VF_PROGS": d / "progs.json", "VF_CASES": d / "gen.json"})
-        if len(rg.lines) != gen_expected:
-            raise MachineryError(f"machine stage (TLC-chosen inputs): {len(rg.lines)} verdicts, {gen_expected} expected")
+        gen_clean = [{k_: v_ for k_, v_ in c.items() if not k_.startswith("_")} for c in gen_cases]
+        g_lines, g_st, g_tr, _ = machine_run(programs, gen_clean, {c["id"]: c["_kernel"] for c in gen_cases}, prog_of_kernel, d, "g")
+        if len(g_lines) != gen_expected:
+            raise MachineryError(f"machine stage (TLC-chosen inputs): {len(g_lines)} verdicts, {gen_expected} expected")
+
+        class rg:
+            lines, distinct, generated = g_lines, g_st, g_tr
+
         states_gen, trans_gen = rg.distinct, rg.generated
         for l in rg.lines:
             gc = gen_cases[l["case"] - 1]
@@ -369,12 +405,18 @@ def _run(t: str, s: int) -> Result:
     rc_lines = {}
     rc_states = (0, 0)
     if obs_cases:
-        dump(obs_cases, d / "obs.json")
-        rc = run_tlc("KernelRun", "KernelRun.cfg", env={"VF_PROGS": d / "progs.json", "VF_CASES": d / "obs.json"})
-        if len(rc.lines) != len(obs_cases):
-            raise MachineryError(f"trace stage: {len(rc.lines)} verdicts for {len(obs_cases)} traces")
-        rc_lines = {l["case"]: l for l in rc.lines}
-        rc_states = (rc.distinct, rc.generated)
+        dump([], d / "noprogs.json")
+        rc_all, st_c, tr_c = [], 0, 0
+        for lo in range(0, len(obs_cases), 12000):
+            dump(obs_cases[lo:lo + 12000], d / "obs.json")
+            rc = run_tlc("KernelRun", "KernelRun.cfg", env={"VF_PROGS": d / "noprogs.json", "VF_CASES": d / "obs.json"}, timeout=7200)
+            rc_all += rc.lines
+            st_c += rc.distinct
+            tr_c += rc.generated
+        if len(rc_all) != len(obs_cases):
+            raise MachineryError(f"trace stage: {len(rc_all)} verdicts for {len(obs_cases)} traces")
+        rc_lines = {l["case"]: l for l in rc_all}
+        rc_states = (st_c, tr_c)
 
     # ---- stage D: every native crash / exception of the wide pass is taken back to the machine ----------------------
     confirm = []
@@ -389,9 +431,12 @@ def _run(t: str, s: int) -> Result:
                                             kernels.single_script(k.progs["evaluate"]), "single", emit=False))
             wb["ccid"] = cid
         if ccases:
-            dump(ccases, d / "confirm.json")
-            rd = run_tlc("KernelRun", "KernelRun.cfg", env={"VF_PROGS": d / "progs.json", "VF_CASES": d / "confirm.json"})
-            got = {l["case"]: l for l in rd.lines}
+            ck = {}
+            for wb in wide_bad:
+                if "ccid" in wb:
+                    ck[wb["ccid"]] = wb["kernel"]
+            c_lines, _, _, _ = machine_run(programs, ccases, ck, prog_of_kernel, d, "c")
+            got = {l["case"]: l for l in c_lines}
             for wb in wide_bad:
                 if "ccid" in wb and wb["ccid"] in got:
                     wb["machine"] = got[wb["ccid"]]["v"]
